@@ -63,10 +63,12 @@ def run(ctx, rep):
     # log composition
     base = prog.method('copulas.multivariate.base.Multivariate', 'log_probability_density', inherited=False)
     eff = prog.cls(gauss.GM).lookup('log_probability_density')
+    from ..idioms import resolve as _resolve
     rets = [n for n in walk_no_nested(eff.node) if isinstance(n, ast.Return) and n.value is not None]
-    good = len(rets) == 1 and isinstance(rets[0].value, ast.Call) and prog.resolve(eff.module, rets[0].value.func) == 'numpy.log' \
-        and rets[0].value.args and isinstance(rets[0].value.args[0], ast.Call) \
-        and is_self_attr(rets[0].value.args[0].func, eff.self_name, 'probability_density')
+    rv = _resolve(eff.node, rets[0].value) if len(rets) == 1 else None
+    inner = _resolve(eff.node, rv.args[0]) if isinstance(rv, ast.Call) and rv.args else None
+    good = isinstance(rv, ast.Call) and prog.resolve(eff.module, rv.func) == 'numpy.log' \
+        and isinstance(inner, ast.Call) and is_self_attr(inner.func, eff.self_name, 'probability_density')
     if good:
         rep.ok('D1.log', eff, rets[0], 'np.log(self.probability_density(X))')
     else:
@@ -74,58 +76,63 @@ def run(ctx, rep):
                      for c in walk_no_nested(eff.node))
         if logpdf:
             rep.undecided('D1.log', eff, eff.node.name, 'uses multivariate_normal.logpdf (not the np.log composition)', construct='log density')
+        elif isinstance(rv, ast.Call) and prog.resolve(eff.module, rv.func) == 'numpy.log' and inner is not None:
+            rep.bad('D1.log', eff, eff.node.name, f'log_probability_density is the logarithm of {short(inner, 50)}, not of probability_density(X)', construct='log density')
+        elif isinstance(rv, ast.Call) and (prog.resolve(eff.module, rv.func) or '').startswith('numpy.log'):
+            rep.bad('D1.log', eff, eff.node.name, f'log_probability_density applies {prog.resolve(eff.module, rv.func)} instead of numpy.log', construct='log density')
         else:
-            rep.bad('D1.log', eff, eff.node.name, 'log_probability_density is not the logarithm of probability_density', construct='log density')
+            rep.undecided('D1.log', eff, eff.node.name, 'form of log_probability_density not recognised', construct='log density')
     gauss.report_order(ctx, rep, 'D2.align', ['_transform_to_normal', 'probability_density', 'cumulative_distribution'], floor=4)
-    # D2.series: structure of the container normalisation
+    # D2.series: structure of the container normalisation (searched in _transform_to_normal and its private helpers)
+    from ..idioms import private_closure, resolve
+    from ..boolcond import Conds
     tn = gauss.gm_method(ctx, '_transform_to_normal')
     series_ok = array_ok = False
-    xp = tn.params[1]
-    for path in enum_paths(tn.body()):
-        for test, pol in path.conds:
-            while isinstance(test, ast.UnaryOp) and isinstance(test.op, ast.Not):
-                test, pol = test.operand, not pol
-            if isinstance(test, ast.Call) and call_name(test) == 'isinstance' and len(test.args) == 2 \
-                    and isinstance(test.args[0], ast.Name) and test.args[0].id == xp:
-                tname = prog.resolve(tn.module, test.args[1]) or ''
-                if tname == 'pandas.Series' and pol:
-                    # on this path X is re-bound to a labelled frame: X.to_frame().T
-                    for s_ in path.stmts:
-                        if isinstance(s_, ast.Assign) and isinstance(s_.targets[0], ast.Name) and s_.targets[0].id == xp:
-                            v = s_.value
-                            if isinstance(v, ast.Attribute) and v.attr == 'T' and isinstance(v.value, ast.Call) \
-                                    and call_name(v.value) == 'to_frame':
-                                series_ok = True
-                            if isinstance(v, ast.Call) and prog.resolve(tn.module, v.func) == 'pandas.DataFrame' \
-                                    and v.args and isinstance(v.args[0], ast.List) and kwarg(v, 'columns') is None:
-                                series_ok = True
-                if tname == 'pandas.DataFrame' and not pol:
-                    for s_ in path.stmts:
-                        if isinstance(s_, ast.Assign) and isinstance(s_.targets[0], ast.Name) and s_.targets[0].id == xp \
-                                and isinstance(s_.value, ast.Call) and prog.resolve(tn.module, s_.value.func) == 'pandas.DataFrame':
-                            cols = kwarg(s_.value, 'columns')
-                            if cols is not None and is_self_attr(cols, tn.self_name, 'columns'):
+    series_test_seen = False
+    for f in private_closure(ctx, tn, prog.cls(gauss.GM)):
+        for xp in f.params[1:] if f.self_name else f.params:
+            for path in enum_paths(f.body()):
+                is_series = is_frame = None
+                for test, pol in path.conds:
+                    if not isinstance(test, ast.expr):
+                        continue
+                    while isinstance(test, ast.UnaryOp) and isinstance(test.op, ast.Not):
+                        test, pol = test.operand, not pol
+                    if isinstance(test, ast.Call) and call_name(test) == 'isinstance' and len(test.args) == 2 \
+                            and isinstance(test.args[0], ast.Name) and test.args[0].id == xp:
+                        tname = prog.resolve(f.module, test.args[1]) or ''
+                        if tname == 'pandas.Series':
+                            is_series = pol
+                            series_test_seen = True
+                        if tname == 'pandas.DataFrame':
+                            is_frame = pol
+                # the values the parameter is re-bound to / that are returned on this path
+                outs = [s_.value for s_ in path.stmts if isinstance(s_, ast.Assign) and isinstance(s_.targets[0], ast.Name) and s_.targets[0].id == xp]
+                if isinstance(path.end, ast.Return) and path.end.value is not None:
+                    outs.append(resolve(f.node, path.end.value))
+                for v in outs:
+                    if is_series is True:
+                        if isinstance(v, ast.Attribute) and v.attr == 'T' and isinstance(v.value, ast.Call) and call_name(v.value) == 'to_frame':
+                            series_ok = True
+                        if isinstance(v, ast.Call) and prog.resolve(f.module, v.func) == 'pandas.DataFrame' and v.args \
+                                and isinstance(v.args[0], ast.List) and kwarg(v, 'columns') is None:
+                            series_ok = True
+                    if is_frame is False and is_series is not True:
+                        if isinstance(v, ast.Call) and prog.resolve(f.module, v.func) == 'pandas.DataFrame':
+                            cols = kwarg(v, 'columns')
+                            if cols is not None and is_self_attr(cols, f.self_name, 'columns'):
                                 array_ok = True
-    rep.check('D2.series', tn, tn.node.name, series_ok, 'Series -> X.to_frame().T (labels kept)',
-              'a Series query is not turned into a labelled frame: its values are taken positionally, whatever its index order',
-              construct='Series branch')
-    rep.check('D2.series', tn, tn.node.name, array_ok, 'array -> DataFrame(X, columns=self.columns)',
-              'a plain array is not labelled with the training columns', construct='array branch')
-    # the loop selects by label from the training columns
-    loops = [n for n in walk_no_nested(tn.node) if isinstance(n, ast.For)]
-    good = False
-    for lp in loops:
-        if isinstance(lp.iter, ast.Call) and call_name(lp.iter) == 'zip' and lp.iter.args \
-                and is_self_attr(lp.iter.args[0], tn.self_name, 'columns') and isinstance(lp.target, ast.Tuple):
-            kv = lp.target.elts[0].id
-            uv = lp.target.elts[1].id if isinstance(lp.target.elts[1], ast.Name) else None
-            subs = [s for s in ast.walk(lp) if isinstance(s, ast.Subscript) and isinstance(s.value, ast.Name)
-                    and s.value.id == xp and isinstance(s.slice, ast.Name) and s.slice.id == kv]
-            cdfs = [c for c in ast.walk(lp) if isinstance(c, ast.Call) and isinstance(c.func, ast.Attribute)
-                    and isinstance(c.func.value, ast.Name) and c.func.value.id == uv]
-            good = bool(subs) and bool(cdfs)
-    rep.check('D2.series', tn, tn.node.name, good, 'each training column is selected by label and transformed by its own marginal',
-              'columns are not selected by label in training order / not transformed by their own marginal', construct='label selection loop')
+    if not series_test_seen:
+        rep.bad('D2.series', tn, tn.node.name, 'no branch treats a Series query: its values are taken positionally, whatever its index order',
+                construct='Series branch')
+    else:
+        rep.check('D2.series', tn, tn.node.name, series_ok, 'Series -> X.to_frame().T (labels kept)',
+                  'a Series query is not turned into a labelled frame: its values are taken positionally, whatever its index order',
+                  construct='Series branch')
+    if array_ok:
+        rep.ok('D2.series', tn, tn.node.name, 'array -> DataFrame(X, columns=self.columns)', construct='array branch')
+    else:
+        rep.undecided('D2.series', tn, tn.node.name, 'labelling of a plain array with the training columns not recognised', construct='array branch')
     # D3 row independence
     for mname in ('_transform_to_normal', 'probability_density', 'cumulative_distribution'):
         fn = gauss.gm_method(ctx, mname)
